@@ -50,6 +50,7 @@ type Monitor struct {
 	peak      atomic.Uint64
 	heap0     atomic.Uint64
 	stop      chan struct{}
+	note      atomic.Value // string, see SetNote
 }
 
 // the bytes marked live by the most recent garbage collection: unlike the heap
@@ -103,6 +104,9 @@ func (m *Monitor) loop() {
 				if i := strings.Index(phase, ":"); i > 0 {
 					phase = phase[:i]
 				}
+				if note, _ := m.note.Load().(string); note != "" {
+					phase += "/" + note
+				}
 				fmt.Fprintf(os.Stderr, "\nVERIF-ABORT cpu-budget-exceeded/%s :: %s used %.1f s of CPU (cap %.0f s): the call does not terminate in time proportional to its input\n", phase, name, used, m.cpuBudget)
 				pprof.Lookup("goroutine").WriteTo(os.Stderr, 2)
 				os.Exit(3)
@@ -110,6 +114,10 @@ func (m *Monitor) loop() {
 		}
 	}
 }
+
+// SetNote names what the guarded call is doing right now (a stage of a longer
+// walk, say); the note becomes part of the key of a CPU-budget abort.
+func (m *Monitor) SetNote(note string) { m.note.Store(note) }
 
 // Close stops the monitor.
 func (m *Monitor) Close() { close(m.stop) }
